@@ -50,8 +50,11 @@ def handle (op : String) (args : List String) : String :=
     | [a, b] =>
       match parseKVs a, parseKVs b with
       | some orig, some assign =>
-        let r := copyThenSet orig assign
-        showKV r.1 ++ " | " ++ showKV r.2
+        -- heap with the original at reference 0; `copy` allocates, assignments go through the copy's reference
+        let h0 : Heap String := [orig]
+        let (h1, c) := h0.copy 0
+        let h2 := h1.setMany c assign
+        showKV (h2.get 0) ++ " | " ++ showKV (h2.get c)
       | _, _ => "bad-op"
     | _ => "bad-op"
   | _, _ => "bad-op"
